@@ -52,6 +52,8 @@ class C17(Check):
                     scn["event"]["falsy"] = rng.choice(["", "0", "false", "''", "0.0", "1 - 1", "!true"])
             if self.apply_event(scn)[1]:
                 break
+        if rng.random() < 0.3:
+            scn["esc"] = rng.randrange(1, 1 << 20)
         for k, d in uni.defs.items():
             f = G.gen_fmt(rng, d, rich=True)
             f.pop("tail", None)
@@ -74,7 +76,7 @@ class C17(Check):
             scn["fmt"][k] = f
         return scn
 
-    def apply_event(self, scn: dict):
+    def _apply_event(self, scn: dict):
         ws = copy.deepcopy(scn["ws"])
         uni = Universe(ws)
         ev = scn["event"]
@@ -171,6 +173,27 @@ class C17(Check):
                 # earlier sites of the same section move down
                 sites = [(a, ("%d:%d" % (si, int(b.split(":")[1]) + 1)) if a == k and int(b.split(":")[0]) == si and int(b.split(":")[1]) >= idx else b, c, e) for a, b, c, e in sites]
                 sites.append((k, "%d:%d" % (si, idx), payload, "print"))
+        return ws, sites
+
+    def apply_event(self, scn: dict):
+        ws, sites = self._apply_event(scn)
+        esc = scn.get("esc")
+        if esc and sites:
+            # a string literal with ESCAPED line breaks ('\\n', '\\u000A', '\\r') ahead of the event: an escape sequence is not a
+            # line of the source text
+            uni = Universe(ws)
+            key = sites[0][0]
+            if key in uni.defs:
+                items = uni.defs[key]["secs"][0]["items"]
+                line = ["@assert 'l1\\nl2\\u000Al3\\r' != ''", "@assert \"a\\nb\" == 'a\\nb'", "@assert {'x\\n\\n', 'y'}.count == 2"][esc % 3]
+                items.insert(0, ["raw", line, []])
+                fixed = []
+                for a, b, c, e in sites:
+                    si, _, idx = b.partition(":")
+                    if a == key and si == "0" and idx.isdigit():
+                        b = "0:%d" % (int(idx) + 1)
+                    fixed.append((a, b, c, e))
+                sites = fixed
         return ws, sites
 
     def execute(self, scn: dict) -> Outcome:
@@ -325,6 +348,30 @@ class C17(Check):
                                      "print-path:%s:%s" % (how, rel))
                         if ln != want_line:
                             out.fail("C17.print-line", "read %d: @print on line %s of %s delivered with line %s" % (i, want_line, want_file, ln), "print-line:" + how)
+            # history: the file that holds the event is edited in place (k empty lines are inserted at its top, as an editor or a
+            # merge would) and read again in the same process - under the scenario's mtime policy the new content may carry the
+            # old, or an older, modification time. Locations are those of the text as it is now.
+            key0, tag0, payload0, klass0 = sites[0]
+            if len(sites) == 1 and klass0 in ("immediate", "lazy", "print"):
+                fm0 = (scn.get("fmt") or {}).get(key0) or {}
+                eol = "\r\n" if fm0.get("crlf") else "\r" if fm0.get("cr") else "\n"
+                kshift = 1 + scn["read_seed"] % 3
+                w.write(uni.file_of(key0), eol * kshift + w.texts[key0])
+                ri0 = uni.root_of[key0]
+                res = w.run_read({"op": "rn", "root": {"p": uni.roots[ri0]["dir"]}, "lookups": [{"p": uni.roots[x]["dir"]} for x in range(nroots) if x != ri0], "key": None, "cwd": ""})
+                out.stats["edited_in_place_reads:" + w.mtime_policy] += 1
+                want_line = w.lmaps[key0].get(tag0)
+                if want_line:
+                    if klass0 == "print":
+                        got = [(pp, ln, tx) for (pp, ln, tx) in res["prints"] if (payload0 in tx if payload0 is not None else "PAYLOAD" not in tx) and w.rel(pp) == uni.file_of(key0)]
+                        if res["ok"] and got and any(ln != want_line + kshift for _pp, ln, _tx in got):
+                            out.fail("C17.print-line", "after %d empty lines were inserted at the top of %s (mtime policy %s) its @print, now on line %d, is delivered with line %s" % (
+                                kshift, uni.file_of(key0), w.mtime_policy, want_line + kshift, sorted({ln for _pp, ln, _tx in got})), "print-line:stale-text")
+                    elif not res["ok"]:
+                        ei = exc_info(res["exc"])
+                        if ei.get("cat") == "IDE" and ei.get("path") and w.rel(ei["path"]) == uni.file_of(key0) and ei.get("line") not in (None, want_line + kshift):
+                            out.fail("C17.err-line", "after %d empty lines were inserted at the top of %s (mtime policy %s) the faulty statement, now on line %d, is reported at line %s" % (
+                                kshift, uni.file_of(key0), w.mtime_policy, want_line + kshift, ei.get("line")), "line:stale-text")
             if probe_ok:
                 out.stats["probe_parse_available"] += 1
             out.stats["event:" + scn["event"]["k"]] += 1
